@@ -45,13 +45,13 @@ def demoComp (K : Keys) : Comp Unit (List Move) where
   setWeight := fun p _ => p
   qMoves := fun _ b _ => (MoveGen.genNoisy b).map fun m => (m, 1)
   rfpCut := fun d se beta => decide (d < 8) && decide (se ≥ beta + d * 100) && decide (beta > -Inf + maxPlies)
-  nmpTry := fun _ d se beta => decide (d > 2) && decide (se ≥ beta)
+  nmpTry := fun _ d se beta => decide (d > 2) && decide (se ≥ beta) && decide (-9936 ≤ beta)
   nmpDepth := fun d _ _ => max (d - 3) 0
   iir := fun _ _ _ => false
   lmrTry := fun d q => decide (d > 1) && decide (q > 3)
   lmr := fun d _ _ _ => max (d - 2) 0
   lmpCut := fun d _ q => decide (q > 1 + d * d)
-  windowSize := 50
+  windowSize := 44
   deltaCut := fun _ _ _ _ => false
   hashFull := fun _ => 0
   nextGen := fun _ => ()
